@@ -26,7 +26,10 @@ EXPLANATION = (
     "tuple/list optimize values are cacheable and lists are keyed by value; "
     "(DISPATCH) type-keyed handler caches choose by facts of the type only; (HIDDEN) "
     "mutable globals read on the build path but absent from the key are allow-listed "
-    "with a reason. Numeric equality of cached and uncached results is not decided."
+    "with a reason. Numeric equality of cached and uncached results is not decided. "
+    "Later rounds added: "
+    "(INVALIDATE) a function that clears a memo lying below a cache table clears the "
+    "table too. "
 )
 ASSUMPTIONS = (
     "allow-listed hidden inputs select among value-equivalent executors/optimizers: "
